@@ -398,6 +398,11 @@ EXTRAS = [
     # a function that modifies what it is given: literal arguments must arrive fresh at every evaluation
     ("x:fa_mutating_literal", ("fa", "f_mutate", [_R([1, [2], {"k": [3]}])], {}), []),
     ("x:fa_mutating_literal_kw", ("tuple", [("fa", "f_mutate", [], {"x": _R({"k": [3]})}), ("opt", "A", ("val", 0))]), [A3]),
+    # an evaluated pipeline / partial application handed to a consumer as a value: everything its steps need is
+    # evaluated when the pipeline is, not when the consumer calls it
+    ("x:pipe_as_argument", ("fa", "f_call", [("pipe", [("step", "g0", {"y": ("opt", "A")}), ("fn", "f1"), ("step", "g2", {"y": ("opt", "B", ("val", 0))})]), ("val", 5)], {}), [A3, B3]),
+    ("x:pipe_as_dataset_argument", ("ds", "usepipe", {"params": [("pipe", [("step", "g0", {"y": ("ds", "pd", {"params": [("opt", "A")]})}), ("fn", "f1")])], "cache": "none"}), [A3]),
+    ("x:pa_as_argument", ("fa", "f_call", [("pa", "g0", [], {"k": ("opt", "A")}), ("val", 5)], {}), [A3]),
     # a constant container default that happens to hold brace syntax is a constant (only str defaults are templates)
     ("x:optdefault_raw_braces", ("opt", "A", _R(["{B}", 1])), [A3, B3]),
     ("x:optdefault_val_braces", ("opt", "A", ("val", {"K": "{B}"})), [A3, B3]),
